@@ -27,6 +27,7 @@ EXPLANATION = (
     ' (R5) an id listed twice by sensors() must resolve to the last definition in _get_sensor, as the bulk dictionary does.'
     " (R5 bulk-last-wins) _map_response stores what each row's read() returned unconditionally, so for an id listed twice the bulk value is the one of the definition _get_sensor resolves."
     ' (R5) _get_sensor must resolve ids over the current sensors() (understood lookup) in every family; (R6, shared with C14.R1) bulk values are decoded from fetched registers.'
+    ' (R7) read_sensor(id) for an id that _get_sensor finds returns the awaited _read_sensor(<that sensor>).'
 )
 
 
@@ -46,6 +47,10 @@ def check(ctx: Ctx, rep: Report):
             _nv += 1
             rep.obligations.append(type(o)("C16.R6", o.key, o.where, o.what, o.status, o.detail))
     rep.ok("C16.R6", "window:summary", "goodwe/", "%d window obligations of C14.R1 evaluated, %d not satisfied" % (sum(1 for o in _sub.obligations if o.rule == "C14.R1"), _nv))
+    rep.rule("C16.R7", "read_sensor(id) for an id _get_sensor finds returns the awaited _read_sensor(<that sensor>)", 2)
+    from .c17 import known_id_read
+    for _fam in ("ET", "DT"):
+        known_id_read(ctx, rep, "C16.R7", _fam, "read_sensor", "self._get_sensor(%s)", ("_read_sensor",))
     prog = ctx.prog
     tabs, dec = tables_ctx(ctx), decoders_ctx(ctx)
     # ---- count expression of _read_sensor / _read_setting
